@@ -413,7 +413,7 @@ Section pblock_induction.
   Hypothesis HHeader : forall lr l, P (BHeader lr l).
   Hypothesis HCode : forall lr, P (BCode lr).
   Hypothesis HRule : forall lr, P (BRule lr).
-  Hypothesis HTable : forall lr, P (BTable lr).
+  Hypothesis HTable : forall lr h rows, P (BTable lr h rows).
   Hypothesis HQuote : forall lr bs, Forall P bs -> P (BQuote lr bs).
   Hypothesis HList : forall items, Forall (Forall P) items -> P (BList items).
   Fixpoint pblock_ind' (b : pblock) : P b :=
@@ -427,7 +427,7 @@ Section pblock_induction.
     | BHeader lr l => HHeader lr l
     | BCode lr => HCode lr
     | BRule lr => HRule lr
-    | BTable lr => HTable lr
+    | BTable lr h rows => HTable lr h rows
     | BQuote lr bs => HQuote lr bs (go bs)
     | BList items =>
         HList items ((fix goi (l : list (list pblock)) : Forall (Forall P) l :=
@@ -471,9 +471,13 @@ Proof.
 Qed.
 
 (* block search *)
-Definition lr_of (b : pblock) : lrange := match line_range b with Ok r => r | Panic _ => (0, 0) end.
-Definition covers (line : nat) (b : pblock) : bool := lrange_contains (lr_of b) line.
+Definition lr_of (v : variant) (b : pblock) : lrange := match line_range v b with Ok r => r | Panic _ => (0, 0) end.
+Definition covers (v : variant) (line : nat) (b : pblock) : bool := lrange_contains (lr_of v b) line.
 Definition no_bad_lists (bs : list pblock) : Prop := Forall (fun b => bad_list b = false) (doc_search_order bs).
+(* what the search needs of the lists it walks through: nothing since the repair [v_empty_item];
+   as found, no list whose first item is empty *)
+Definition lists_ok (v : variant) (l : list pblock) : Prop :=
+  v_empty_item v = true \/ Forall (fun b => bad_list b = false) l.
 
 Lemma search_order_self b : In b (search_order b).
 Proof. destruct b; cbn; try (left; reflexivity); apply in_or_app; right; left; reflexivity. Qed.
@@ -482,55 +486,73 @@ Lemma Forall_app_l {A} (P : A -> Prop) a b : Forall P (a ++ b) -> Forall P a.
 Proof. intros H. apply Forall_app in H. tauto. Qed.
 Lemma Forall_app_r {A} (P : A -> Prop) a b : Forall P (a ++ b) -> Forall P b.
 Proof. intros H. apply Forall_app in H. tauto. Qed.
+Lemma lists_ok_l v a b : lists_ok v (a ++ b) -> lists_ok v a.
+Proof. intros [H|H]; [now left | right; exact (Forall_app_l _ _ _ H)]. Qed.
+Lemma lists_ok_r v a b : lists_ok v (a ++ b) -> lists_ok v b.
+Proof. intros [H|H]; [now left | right; exact (Forall_app_r _ _ _ H)]. Qed.
 
-Lemma line_range_ok : forall b,
-  Forall (fun x => bad_list x = false) (search_order b) -> exists r, line_range b = Ok r.
+(* the repaired `line_range` is total: the first block of the first item that has one, or the
+   empty range *)
+Lemma line_range_total v : v_empty_item v = true -> forall b, exists r, line_range v b = Ok r.
 Proof.
-  induction b as [lr l|lr l|lr|lr|lr|lr bs IH|items IH] using pblock_ind'; intros H;
+  intros Hv. induction b as [lr l|lr l|lr|lr|lr h rows|lr bs IH|items IH] using pblock_ind';
+    try (eexists; reflexivity).
+  cbn [line_range]. rewrite Hv.
+  induction IH as [|it rest Hit _ IHr]; [eexists; reflexivity|].
+  destruct it as [|first it']; [exact IHr|]. inversion Hit as [|? ? Hf _]; subst. exact Hf.
+Qed.
+
+Lemma line_range_ok v : forall b,
+  lists_ok v (search_order b) -> exists r, line_range v b = Ok r.
+Proof.
+  intros b [Hv|H]; [now apply line_range_total|]. revert H.
+  induction b as [lr l|lr l|lr|lr|lr h rows|lr bs IH|items IH] using pblock_ind'; intros H;
     try (eexists; reflexivity).
   cbn [search_order] in H.
   assert (Hb : bad_list (BList items) = false).
   { apply Forall_app_r in H. now inversion H. }
   destruct items as [|[|first it] rest]; try discriminate.
-  cbn [line_range]. inversion IH as [|? ? Hit _]; subst. inversion Hit as [|? ? Hf _]; subst.
-  apply Hf. apply Forall_app_l in H.
-  apply Forall_app_l in H. cbn in H. now apply Forall_app_l in H.
+  inversion IH as [|? ? Hit _]; subst. inversion Hit as [|? ? Hf _]; subst.
+  assert (Hf' : exists r, line_range v first = Ok r).
+  { apply Hf. apply Forall_app_l in H.
+    apply Forall_app_l in H. cbn in H. now apply Forall_app_l in H. }
+  cbn [line_range]. destruct (v_empty_item v); exact Hf'.
 Qed.
 
-Lemma block_at_find line : forall b,
-  Forall (fun x => bad_list x = false) (search_order b) ->
-  block_at b line = Ok (find (covers line) (search_order b)).
+Lemma block_at_find v line : forall b,
+  lists_ok v (search_order b) ->
+  block_at v b line = Ok (find (covers v line) (search_order b)).
 Proof.
-  induction b as [lr l|lr l|lr|lr|lr|lr bs IH|items IH] using pblock_ind'; intros H;
+  induction b as [lr l|lr l|lr|lr|lr h rows|lr bs IH|items IH] using pblock_ind'; intros H;
     try (cbn; unfold covers, lr_of; cbn; destruct (lrange_contains lr line); reflexivity).
   - (* quote *)
-    cbn [search_order] in H. pose proof (Forall_app_l _ _ _ H) as Hk.
+    cbn [search_order] in H. pose proof (lists_ok_l _ _ _ H) as Hk.
     set (go := fix go (l : list pblock) : res (option pblock) :=
            match l with
            | [] => Ok None
-           | x :: rest => do r <- block_at x line; match r with Some y => Ok (Some y) | None => go rest end
+           | x :: rest => do r <- block_at v x line; match r with Some y => Ok (Some y) | None => go rest end
            end).
     set (gs := fix go (l : list pblock) : list pblock :=
            match l with [] => [] | x :: r => search_order x ++ go r end) in *.
-    assert (G : go bs = Ok (find (covers line) (gs bs))).
+    assert (G : go bs = Ok (find (covers v line) (gs bs))).
     { clear H. induction IH as [|x rest Hx _ IHr]; [reflexivity|].
       cbn [gs] in Hk. fold gs in Hk. cbn [go]. fold go.
-      rewrite (Hx (Forall_app_l _ _ _ Hk)). cbn [bind]. cbn [gs]. fold gs. rewrite find_app.
-      destruct (find (covers line) (search_order x)); [reflexivity|].
-      apply IHr. exact (Forall_app_r _ _ _ Hk). }
-    change (block_at (BQuote lr bs) line) with
-      (do c <- go bs; do lr' <- line_range (BQuote lr bs);
+      rewrite (Hx (lists_ok_l _ _ _ Hk)). cbn [bind]. cbn [gs]. fold gs. rewrite find_app.
+      destruct (find (covers v line) (search_order x)); [reflexivity|].
+      apply IHr. exact (lists_ok_r _ _ _ Hk). }
+    change (block_at v (BQuote lr bs) line) with
+      (do c <- go bs; do lr' <- line_range v (BQuote lr bs);
        Ok (match c with Some y => Some y | None => if lrange_contains lr' line then Some (BQuote lr bs) else None end)).
     rewrite G. cbn [bind line_range search_order]. fold gs. rewrite find_app.
-    destruct (find (covers line) (gs bs)); [reflexivity|].
+    destruct (find (covers v line) (gs bs)); [reflexivity|].
     cbn [find]. unfold covers at 1, lr_of. cbn [line_range]. reflexivity.
   - (* list *)
-    destruct (line_range_ok (BList items) H) as [r Hr].
-    cbn [search_order] in H. pose proof (Forall_app_l _ _ _ H) as Hk.
+    destruct (line_range_ok v (BList items) H) as [r Hr].
+    cbn [search_order] in H. pose proof (lists_ok_l _ _ _ H) as Hk.
     set (go := fix go (l : list pblock) : res (option pblock) :=
            match l with
            | [] => Ok None
-           | x :: rest => do r <- block_at x line; match r with Some y => Ok (Some y) | None => go rest end
+           | x :: rest => do r <- block_at v x line; match r with Some y => Ok (Some y) | None => go rest end
            end).
     set (goi := fix go_items (l : list (list pblock)) : res (option pblock) :=
            match l with
@@ -541,101 +563,108 @@ Proof.
            match l with [] => [] | x :: r => search_order x ++ go r end) in *.
     set (gsi := fix go_items (l : list (list pblock)) : list pblock :=
            match l with [] => [] | it :: r => gs it ++ go_items r end) in *.
-    assert (G1 : forall it, Forall (fun b => Forall (fun x => bad_list x = false) (search_order b) ->
-                                             block_at b line = Ok (find (covers line) (search_order b))) it ->
-                            Forall (fun x => bad_list x = false) (gs it) ->
-                            go it = Ok (find (covers line) (gs it))).
+    assert (G1 : forall it, Forall (fun b => lists_ok v (search_order b) ->
+                                             block_at v b line = Ok (find (covers v line) (search_order b))) it ->
+                            lists_ok v (gs it) ->
+                            go it = Ok (find (covers v line) (gs it))).
     { intros it Hit. induction Hit as [|x rest Hx _ IHr]; intros Hb; [reflexivity|].
       cbn [gs] in Hb. fold gs in Hb. cbn [go]. fold go.
-      rewrite (Hx (Forall_app_l _ _ _ Hb)). cbn [bind]. cbn [gs]. fold gs. rewrite find_app.
-      destruct (find (covers line) (search_order x)); [reflexivity|].
-      apply IHr. exact (Forall_app_r _ _ _ Hb). }
-    assert (G : goi items = Ok (find (covers line) (gsi items))).
+      rewrite (Hx (lists_ok_l _ _ _ Hb)). cbn [bind]. cbn [gs]. fold gs. rewrite find_app.
+      destruct (find (covers v line) (search_order x)); [reflexivity|].
+      apply IHr. exact (lists_ok_r _ _ _ Hb). }
+    assert (G : goi items = Ok (find (covers v line) (gsi items))).
     { clear H Hr. induction IH as [|it rest Hit _ IHr]; [reflexivity|].
       cbn [gsi] in Hk. fold gsi in Hk. cbn [goi]. fold goi.
-      rewrite (G1 it Hit (Forall_app_l _ _ _ Hk)). cbn [bind]. cbn [gsi]. fold gsi. rewrite find_app.
-      destruct (find (covers line) (gs it)); [reflexivity|].
-      apply IHr. exact (Forall_app_r _ _ _ Hk). }
-    change (block_at (BList items) line) with
-      (do c <- goi items; do lr' <- line_range (BList items);
+      rewrite (G1 it Hit (lists_ok_l _ _ _ Hk)). cbn [bind]. cbn [gsi]. fold gsi. rewrite find_app.
+      destruct (find (covers v line) (gs it)); [reflexivity|].
+      apply IHr. exact (lists_ok_r _ _ _ Hk). }
+    change (block_at v (BList items) line) with
+      (do c <- goi items; do lr' <- line_range v (BList items);
        Ok (match c with Some y => Some y | None => if lrange_contains lr' line then Some (BList items) else None end)).
     rewrite G, Hr. cbn [bind search_order]. fold gs. fold gsi. rewrite find_app.
-    destruct (find (covers line) (gsi items)); [reflexivity|].
+    destruct (find (covers v line) (gsi items)); [reflexivity|].
     cbn [find]. unfold covers at 1, lr_of. rewrite Hr. reflexivity.
 Qed.
 
-Lemma doc_block_at_find line : forall bs,
-  no_bad_lists bs -> doc_block_at bs line = Ok (find (covers line) (doc_search_order bs)).
+Lemma doc_block_at_find v line : forall bs,
+  lists_ok v (doc_search_order bs) -> doc_block_at v bs line = Ok (find (covers v line) (doc_search_order bs)).
 Proof.
-  unfold no_bad_lists. induction bs as [|x r IH]; intros H; [reflexivity|].
+  induction bs as [|x r IH]; intros H; [reflexivity|].
   cbn [doc_search_order] in H. cbn [doc_block_at doc_search_order].
-  rewrite (block_at_find line x (Forall_app_l _ _ _ H)). cbn [bind]. rewrite find_app.
-  destruct (find (covers line) (search_order x)); [reflexivity|].
-  apply IH. exact (Forall_app_r _ _ _ H).
+  rewrite (block_at_find v line x (lists_ok_l _ _ _ H)). cbn [bind]. rewrite find_app.
+  destruct (find (covers v line) (search_order x)); [reflexivity|].
+  apply IH. exact (lists_ok_r _ _ _ H).
 Qed.
 
 (* the characterisation: link_at looks at the first block, in search order (children before
    their parent, document order), whose line range covers the line, and returns the first
-   link of that block, outermost first, whose range contains the position *)
-Theorem link_at_char bs p :
-  no_bad_lists bs ->
-  link_at bs p =
-  Ok (match find (covers (fst p)) (doc_search_order bs) with
-      | Some b => find (in_span p) (links_of_list (child_inlines b))
+   link of that block (for a table since the repair [v_table]: of its cells), outermost first,
+   whose range contains the position.  Since the repair [v_empty_item] this holds for every
+   document; as found, for documents without a list whose first item is empty. *)
+Theorem link_at_char v bs p :
+  (v_empty_item v = true \/ no_bad_lists bs) ->
+  link_at v bs p =
+  Ok (match find (covers v (fst p)) (doc_search_order bs) with
+      | Some b => find (in_span p) (links_of_list (child_inlines v b))
       | None => None
       end).
 Proof.
-  intros H. unfold link_at. rewrite (doc_block_at_find _ _ H). cbn [bind].
-  destruct (find (covers (fst p)) (doc_search_order bs)); [|reflexivity].
+  intros H. unfold link_at. rewrite (doc_block_at_find v _ _ H). cbn [bind].
+  destruct (find (covers v (fst p)) (doc_search_order bs)); [|reflexivity].
   now rewrite first_link_at_find.
 Qed.
+
+(* in particular link_at of the current tree never panics *)
+Corollary link_at_total v bs p : v_empty_item v = true -> exists r, link_at v bs p = Ok r.
+Proof. intros H. rewrite (link_at_char v bs p (or_introl H)). eexists. reflexivity. Qed.
 
 (* exactness of the block ranges, as far as link_at needs it: the first block found on a
    line of a link's span is the block that holds the link; and two links of a block do not
    overlap *)
-Definition block_ranges_exact (bs : list pblock) : Prop :=
-  forall b l p, In b (doc_search_order bs) -> In l (links_of_list (child_inlines b)) ->
-                in_span p l = true -> find (covers (fst p)) (doc_search_order bs) = Some b.
-Definition links_disjoint (bs : list pblock) : Prop :=
+Definition block_ranges_exact (v : variant) (bs : list pblock) : Prop :=
+  forall b l p, In b (doc_search_order bs) -> In l (links_of_list (child_inlines v b)) ->
+                in_span p l = true -> find (covers v (fst p)) (doc_search_order bs) = Some b.
+Definition links_disjoint (v : variant) (bs : list pblock) : Prop :=
   forall b l l' p, In b (doc_search_order bs) ->
-                   In l (links_of_list (child_inlines b)) -> In l' (links_of_list (child_inlines b)) ->
+                   In l (links_of_list (child_inlines v b)) -> In l' (links_of_list (child_inlines v b)) ->
                    in_span p l = true -> in_span p l' = true -> l = l'.
 
-Theorem C13_link_at_iff bs p l :
-  no_bad_lists bs -> block_ranges_exact bs -> links_disjoint bs ->
-  (link_at bs p = Ok (Some l) <->
-   exists b, In b (doc_search_order bs) /\ In l (links_of_list (child_inlines b)) /\ in_span p l = true).
+Theorem C13_link_at_iff v bs p l :
+  (v_empty_item v = true \/ no_bad_lists bs) -> block_ranges_exact v bs -> links_disjoint v bs ->
+  (link_at v bs p = Ok (Some l) <->
+   exists b, In b (doc_search_order bs) /\ In l (links_of_list (child_inlines v b)) /\ in_span p l = true).
 Proof.
-  intros Hb He Hd. rewrite (link_at_char bs p Hb). split.
+  intros Hb He Hd. rewrite (link_at_char v bs p Hb). split.
   - intros H. injection H as H.
-    destruct (find (covers (fst p)) (doc_search_order bs)) as [b|] eqn:F; [|discriminate].
+    destruct (find (covers v (fst p)) (doc_search_order bs)) as [b|] eqn:F; [|discriminate].
     apply find_some in F as [Fb _]. apply find_some in H as [Hl Hs]. exists b. auto.
   - intros (b & Ib & Il & Hs). rewrite (He b l p Ib Il Hs). f_equal.
-    destruct (find (in_span p) (links_of_list (child_inlines b))) as [l'|] eqn:F.
+    destruct (find (in_span p) (links_of_list (child_inlines v b))) as [l'|] eqn:F.
     + apply find_some in F as [Il' Hs']. f_equal. symmetry. exact (Hd b l l' p Ib Il Il' Hs Hs').
     + exfalso. pose proof (find_none _ _ F l Il) as N. congruence.
 Qed.
 
 (* nothing is returned at a position no link's range contains *)
-Theorem C13_link_at_none bs p :
-  no_bad_lists bs ->
-  (forall b l, In b (doc_search_order bs) -> In l (links_of_list (child_inlines b)) -> in_span p l = false) ->
-  link_at bs p = Ok None.
+Theorem C13_link_at_none v bs p :
+  (v_empty_item v = true \/ no_bad_lists bs) ->
+  (forall b l, In b (doc_search_order bs) -> In l (links_of_list (child_inlines v b)) -> in_span p l = false) ->
+  link_at v bs p = Ok None.
 Proof.
-  intros Hb Hn. rewrite (link_at_char bs p Hb).
-  destruct (find (covers (fst p)) (doc_search_order bs)) as [b|] eqn:F; [|reflexivity].
+  intros Hb Hn. rewrite (link_at_char v bs p Hb).
+  destruct (find (covers v (fst p)) (doc_search_order bs)) as [b|] eqn:F; [|reflexivity].
   apply find_some in F as [Ib _]. f_equal.
-  destruct (find (in_span p) (links_of_list (child_inlines b))) as [l|] eqn:G; [|reflexivity].
+  destruct (find (in_span p) (links_of_list (child_inlines v b))) as [l|] eqn:G; [|reflexivity].
   apply find_some in G as [Il Hs]. rewrite (Hn b l Ib Il) in Hs. discriminate.
 Qed.
 
-(* F3: a list with an empty first item makes link_at panic, wherever the cursor is from
-   that list on *)
+(* F3: as found, a list with an empty first item made link_at panic, wherever the cursor was
+   from that list on; the repaired link_at finds the link of the second item *)
 Definition bad_list_witness : list pblock :=
   [BList [[]; [BPara (1, 2) [PNode (KLink Regular "x") ((1, 2), (1, 8)) [PStr 1]]]]].
 Theorem C13_bad_list_refuted :
-  exists p : pos, link_at bad_list_witness p = Panic "line_range: unwrap on None" /\ p = (1, 3).
-Proof. exists (1, 3). split; reflexivity. Qed.
+  exists p : pos, link_at as_found bad_list_witness p = Panic "line_range: unwrap on None" /\ p = (1, 3) /\
+                  link_at repaired bad_list_witness p = Ok (Some (PNode (KLink Regular "x") ((1, 2), (1, 8)) [PStr 1])).
+Proof. exists (1, 3). repeat split; reflexivity. Qed.
 
 (* ====================================================================================== *)
 (* 6. key_range                                                                            *)
@@ -664,23 +693,46 @@ Proof. eexists. split; [|reflexivity]. reflexivity. Qed.
 (* 7. where the block ranges are not exact: witnesses through the reader model             *)
 (* ====================================================================================== *)
 
-(* a paragraph of two lines at the end of a text without final newline: to_line_range gives
-   it the first line only, the link on its second line is not found *)
-Definition w_last_line_text : string := "first line
-second [l](to) x".
+(* OPEN (F-C13-last-line): a range that ends inside a line loses that line, even with a correct
+   line table.  A link that runs over a line break and ends the text: the paragraph and the
+   link get the first line only, the position on the second line is not found — in the
+   current tree as well as as found *)
+Definition w_last_line_text : string := "x [l
+m](to)".
 Definition w_last_line_events : list ev :=
-  [EStart TPara 0 27; EText 10 0 10; EBreak 10 11; EText 7 11 18; EStart (TLink Regular "to") 18 25;
-   EText 1 19 20; EEnd (TLink Regular ""); EText 2 25 27; EEnd TPara].
+  [EStart TPara 0 11; EText 2 0 2; EStart (TLink Regular "to") 2 11; EText 1 3 4; EBreak 4 5; EText 1 5 6;
+   EEnd (TLink Regular ""); EEnd TPara].
 Theorem C13_last_line_refuted :
-  exists d, read_events (code_mode as_found w_last_line_text) w_last_line_events = Ok d /\
-            link_at d (1, 7) = Ok None /\
-            irange_contains (spec_span w_last_line_text 18 25) (1, 7) = true /\
-            to_line_range (line_starts_fixed w_last_line_text) 0 27 = (0, 1) /\
-            spec_lines w_last_line_text 0 27 = (0, 2).
+  exists d, read_events (code_mode repaired w_last_line_text) w_last_line_events = Ok d /\
+            read_events (code_mode as_found w_last_line_text) w_last_line_events = Ok d /\
+            link_at repaired d (1, 2) = Ok None /\
+            irange_contains (spec_span w_last_line_text 2 11) (1, 2) = true /\
+            to_line_range (line_starts_fixed w_last_line_text) 0 11 = (0, 1) /\
+            spec_lines w_last_line_text 0 11 = (0, 2).
 Proof. eexists. repeat split; vm_compute; reflexivity. Qed.
 
-(* a tight list item continued on a second line: the implicit paragraph gets the line range
-   of its first inline, the link on the continuation line is not found *)
+(* a paragraph of two lines at the end of a text without final newline: as found it got the
+   first line only and the link on its second line was not found; since the repair [v_tight]
+   the paragraph covers the lines of its inlines and the link is found (the paragraph's own
+   range is still cut, see above) *)
+Definition w_last_para_text : string := "first line
+second [l](to) x".
+Definition w_last_para_events : list ev :=
+  [EStart TPara 0 27; EText 10 0 10; EBreak 10 11; EText 7 11 18; EStart (TLink Regular "to") 18 25;
+   EText 1 19 20; EEnd (TLink Regular ""); EText 2 25 27; EEnd TPara].
+Theorem C13_last_para_as_found_refuted :
+  exists d d' l, read_events (code_mode as_found w_last_para_text) w_last_para_events = Ok d /\
+            link_at as_found d (1, 7) = Ok None /\
+            irange_contains (spec_span w_last_para_text 18 25) (1, 7) = true /\
+            to_line_range (line_starts_fixed w_last_para_text) 0 27 = (0, 1) /\
+            spec_lines w_last_para_text 0 27 = (0, 2) /\
+            read_events (code_mode repaired w_last_para_text) w_last_para_events = Ok d' /\
+            link_at repaired d' (1, 7) = Ok (Some l) /\ inline_range l = spec_span w_last_para_text 18 25.
+Proof. eexists. eexists. eexists. repeat split; vm_compute; reflexivity. Qed.
+
+(* a tight list item continued on a second line: as found the implicit paragraph got the line
+   range of its first inline and the link on the continuation line was not found; repaired, the
+   reader gives the item the lines the specification gives it and the link is found *)
 Definition w_tight_text : string := "- item
   second [l](to) x
 - b
@@ -691,11 +743,17 @@ Definition w_tight_events : list ev :=
    EEnd TItem; EEnd TList].
 Theorem C13_tight_item_refuted :
   exists d, read_events (code_mode as_found w_tight_text) w_tight_events = Ok d /\
-            link_at d (1, 9) = Ok None /\
+            link_at as_found d (1, 9) = Ok None /\
             irange_contains (spec_span w_tight_text 16 23) (1, 9) = true.
 Proof. eexists. repeat split; vm_compute; reflexivity. Qed.
+Theorem C13_tight_item_repaired :
+  exists d l, read_events (code_mode repaired w_tight_text) w_tight_events = Ok d /\
+              read_events (spec_mode w_tight_text) w_tight_events = Ok d /\
+              link_at repaired d (1, 9) = Ok (Some l) /\ inline_range l = spec_span w_tight_text 16 23.
+Proof. eexists. eexists. repeat split; vm_compute; reflexivity. Qed.
 
-(* a link in a table cell: tables have no child inlines, the link is never found *)
+(* a link in a table cell: as found tables had no child inlines and the link was never found;
+   repaired, the cells are searched *)
 Definition w_table_text : string := "| a |
 |---|
 | [l](to) |
@@ -706,9 +764,14 @@ Definition w_table_events : list ev :=
    EEnd (TLink Regular ""); EEnd TTableCell; EEnd TTableRow; EEnd TTable].
 Theorem C13_table_refuted :
   exists d, read_events (code_mode as_found w_table_text) w_table_events = Ok d /\
-            link_at d (2, 3) = Ok None /\
+            link_at as_found d (2, 3) = Ok None /\
             irange_contains (spec_span w_table_text 14 21) (2, 3) = true.
 Proof. eexists. repeat split; vm_compute; reflexivity. Qed.
+Theorem C13_table_repaired :
+  exists d l, read_events (code_mode repaired w_table_text) w_table_events = Ok d /\
+              link_at repaired d (2, 3) = Ok (Some l) /\ inline_range l = spec_span w_table_text 14 21 /\
+              link_at repaired d (2, 1) = Ok None /\ link_at repaired d (2, 9) = Ok None.
+Proof. eexists. eexists. repeat split; vm_compute; reflexivity. Qed.
 
 (* on a text of the covered class the model reader, link_at and the LSP span agree *)
 Definition w_plain_text : string := "para
@@ -719,9 +782,253 @@ Definition w_plain_events : list ev :=
   [EStart TPara 0 5; EText 4 0 4; EEnd TPara; EStart TPara 6 27; EText 5 6 11; EStart (TLink Regular "to") 11 21;
    EText 4 12 16; EEnd (TLink Regular ""); EText 5 21 26; EEnd TPara].
 Example C13_plain_example :
-  exists d l, read_events (code_mode as_found w_plain_text) w_plain_events = Ok d /\
-              link_at d (2, 5) = Ok (Some l) /\ link_at d (2, 14) = Ok (Some l) /\
-              link_at d (2, 4) = Ok None /\ link_at d (2, 15) = Ok None /\
+  exists d l, read_events (code_mode repaired w_plain_text) w_plain_events = Ok d /\
+              link_at repaired d (2, 5) = Ok (Some l) /\ link_at repaired d (2, 14) = Ok (Some l) /\
+              link_at repaired d (2, 4) = Ok None /\ link_at repaired d (2, 15) = Ok None /\
               inline_range l = spec_span w_plain_text 11 21 /\
               key_range l = Ok (Some ((2, 12), (2, 14))).
 Proof. eexists. eexists. repeat split; vm_compute; reflexivity. Qed.
+
+(* ====================================================================================== *)
+(* 8. the reader depends on the mode only through the ranges of the events it sees         *)
+(* ====================================================================================== *)
+
+(* the two inner loops of `append_inline` *)
+Section loops.
+  Variable f : pblock -> res pblock.
+  Variable i : pinl.
+  Variable lr : lrange.
+  Fixpoint app_last (l : list pblock) : res (list pblock) :=
+    match l with
+    | [] => Panic "append_inline: unwrap on None"
+    | x :: [] => do x' <- f x; Ok [x']
+    | x :: r => do r' <- app_last r; Ok (x :: r')
+    end.
+  Fixpoint app_item (l : list (list pblock)) : res (list (list pblock)) :=
+    match l with
+    | [] => Panic "append_inline: no item"
+    | it :: [] =>
+        match it with
+        | [] => Ok [[BPara lr [i]]]
+        | _ => do it' <- app_last it; Ok [it']
+        end
+    | it :: r => do r' <- app_item r; Ok (it :: r')
+    end.
+End loops.
+
+Lemma append_inline_quote M r bs i lr :
+  append_inline M (BQuote r bs) i lr =
+  match bs with
+  | [] => Ok (BQuote r [BPara lr [i]])
+  | _ => do bs' <- app_last (fun x => append_inline M x i lr) bs; Ok (BQuote r bs')
+  end.
+Proof. reflexivity. Qed.
+
+Lemma append_inline_list M items i lr :
+  append_inline M (BList items) i lr =
+  do items' <- app_item (fun x => append_inline M x i lr) i lr items; Ok (BList items').
+Proof. reflexivity. Qed.
+
+
+Lemma app_last_ext (f g : pblock -> res pblock) l :
+  Forall (fun x => f x = g x) l -> app_last f l = app_last g l.
+Proof.
+  induction 1 as [|x t Hx Ht IH]; [reflexivity|]. destruct t as [|y t].
+  - cbn [app_last]. now rewrite Hx.
+  - change (app_last f (x :: y :: t)) with (do r' <- app_last f (y :: t); Ok (x :: r')).
+    change (app_last g (x :: y :: t)) with (do r' <- app_last g (y :: t); Ok (x :: r')).
+    now rewrite IH.
+Qed.
+
+Lemma app_item_ext (f g : pblock -> res pblock) i lr items :
+  Forall (Forall (fun x => f x = g x)) items -> app_item f i lr items = app_item g i lr items.
+Proof.
+  induction 1 as [|it t Hit Ht IH]; [reflexivity|]. destruct t as [|it' t].
+  - cbn [app_item]. destruct it as [|x u]; [reflexivity|]. now rewrite (app_last_ext f g _ Hit).
+  - change (app_item f i lr (it :: it' :: t)) with (do r' <- app_item f i lr (it' :: t); Ok (it :: r')).
+    change (app_item g i lr (it :: it' :: t)) with (do r' <- app_item g i lr (it' :: t); Ok (it :: r')).
+    now rewrite IH.
+Qed.
+
+(* `append_inline` uses the mode for nothing but [m_union] *)
+Lemma append_inline_union M M' i lr :
+  m_union M = m_union M' -> forall b, append_inline M b i lr = append_inline M' b i lr.
+Proof.
+  intros U. induction b as [r l|r l|r|r|r h rows|r bs IH|items IH] using pblock_ind'; try reflexivity.
+  - cbn [append_inline]. now rewrite U.
+  - rewrite !append_inline_quote. destruct bs as [|x t]; [reflexivity|].
+    now rewrite (app_last_ext _ _ _ IH).
+  - rewrite !append_inline_list. now rewrite (app_item_ext _ _ i lr _ IH).
+Qed.
+
+Lemma pop_inline_ext M M' st : m_union M = m_union M' -> pop_inline M st = pop_inline M' st.
+Proof.
+  intros U. unfold pop_inline. destruct (r_inl st) as [|[i lr] [|[parent plr] rest]]; try reflexivity.
+  destruct (r_blk st) as [|b rest]; [reflexivity|]. now rewrite (append_inline_union M M' i lr U).
+Qed.
+
+(* the byte range an event carries *)
+Definition ev_range (e : ev) : option (nat * nat) :=
+  match e with
+  | EStart _ s e' | EText _ s e' | ECode _ s e' | EMath s e' | EInlineHtml _ s e' | EBreak s e' | ERule s e' => Some (s, e')
+  | _ => None
+  end.
+(* two modes give the event's range the same lines and the same span *)
+Definition modes_agree (M M' : mode) (e : ev) : Prop :=
+  match ev_range e with
+  | Some (s, e') => m_lines M s e' = m_lines M' s e' /\ m_inline M s e' = m_inline M' s e'
+  | None => True
+  end.
+
+Lemma step_ext M M' st e :
+  m_union M = m_union M' -> modes_agree M M' e -> step M st e = step M' st e.
+Proof.
+  intros U A. unfold modes_agree in A.
+  destruct e as [t s e'|t|len s e'|len s e'|s e'|len s e'|s e'|s e'|]; cbn [ev_range] in A;
+    try destruct A as [Al Ai].
+  - destruct t; cbn [step]; rewrite ?Al, ?Ai; reflexivity.
+  - destruct t; cbn [step]; try reflexivity; apply pop_inline_ext; exact U.
+  - cbn [step]. destruct (r_meta st); [reflexivity|]. destruct (r_blk st) as [|b rest]; [reflexivity|].
+    destruct b; try reflexivity; unfold leaf_inline; rewrite Al; apply pop_inline_ext; exact U.
+  - cbn [step]. unfold leaf_inline. rewrite Al, Ai. apply pop_inline_ext; exact U.
+  - cbn [step]. unfold leaf_inline. rewrite Al, Ai. apply pop_inline_ext; exact U.
+  - cbn [step]. unfold leaf_inline. rewrite Al. apply pop_inline_ext; exact U.
+  - cbn [step]. destruct (r_meta st); [reflexivity|]. unfold leaf_inline. rewrite Al. apply pop_inline_ext; exact U.
+  - cbn [step]. now rewrite Al.
+  - reflexivity.
+Qed.
+
+Lemma run_events_ext M M' : m_union M = m_union M' ->
+  forall evs st, Forall (modes_agree M M') evs -> run_events M st evs = run_events M' st evs.
+Proof.
+  intros U. induction evs as [|e r IH]; intros st H; [reflexivity|].
+  inversion H as [|? ? He Hr]; subst. cbn [run_events]. rewrite (step_ext M M' st e U He).
+  destruct (step M' st e); cbn [bind]; [now apply IH | reflexivity].
+Qed.
+
+Theorem read_events_ext M M' evs :
+  m_union M = m_union M' -> Forall (modes_agree M M') evs -> read_events M evs = read_events M' evs.
+Proof. intros U H. unfold read_events. now rewrite (run_events_ext M M' U evs rst0 H). Qed.
+
+(* Since the repair [v_tight] the reader builds exactly the document of the specification —
+   every block with the lines its source spans, every inline with its LSP span — on every event
+   stream whose events each get exact lines and an exact span from `to_line_range` /
+   `to_inline_range`: no block range is derived from the wrong inline any more.  (What is left
+   is the range of one event: F-C13-last-line.) *)
+Theorem C13_reader_spec v t evs :
+  v_tight v = true -> Forall (modes_agree (code_mode v t) (spec_mode t)) evs ->
+  read_events (code_mode v t) evs = read_events (spec_mode t) evs.
+Proof. intros U H. apply read_events_ext; [exact U | exact H]. Qed.
+
+(* as found the premise on the events did not suffice: every event of the tight-item witness
+   gets exact ranges, the implicit paragraph does not *)
+Theorem C13_reader_spec_as_found_refuted :
+  Forall (modes_agree (code_mode as_found w_tight_text) (spec_mode w_tight_text)) w_tight_events /\
+  read_events (code_mode as_found w_tight_text) w_tight_events <> read_events (spec_mode w_tight_text) w_tight_events.
+Proof.
+  split; [|vm_compute; discriminate].
+  repeat (apply Forall_cons; [unfold modes_agree; cbn [ev_range]; try exact I; split; vm_compute; reflexivity|]).
+  apply Forall_nil.
+Qed.
+
+(* ====================================================================================== *)
+(* 9. which ranges `to_line_range` gets right, and the reader of the current tree on them  *)
+(* ====================================================================================== *)
+
+Lemma fst_lsp_pos_walk t o : fst (lsp_pos_walk t o) = count_lf (stake o t).
+Proof. unfold lsp_pos_walk. now rewrite walk_pos. Qed.
+
+Lemma fst_locate v t o :
+  (v_crlf v = true \/ no_cr t = true) -> o <= String.length t ->
+  fst (locate (line_starts v t) o) = count_lf (stake o t).
+Proof. intros H Ho. now rewrite (C13_line_starts_locate v t o H Ho), byte_pos_spec. Qed.
+
+Lemma count_lf_mono t : forall a b, a <= b -> count_lf (stake a t) <= count_lf (stake b t).
+Proof.
+  induction t as [|c r IH]; intros a b H.
+  - destruct a, b; cbn; lia.
+  - destruct a as [|a]; [cbn; lia|]. destruct b as [|b]; [lia|].
+    cbn [stake count_lf]. specialize (IH a b). lia.
+Qed.
+
+Lemma count_lf_step t : forall o c, nth_byte t o = Some c ->
+  count_lf (stake (S o) t) = count_lf (stake o t) + (if is_lf c then 1 else 0).
+Proof.
+  induction t as [|d r IH]; intros o c H; [discriminate|].
+  destruct o as [|o].
+  - cbn in H. injection H as ->. cbn [stake count_lf]. destruct r; cbn; lia.
+  - cbn [nth_byte] in H.
+    change (stake (S (S o)) (String d r)) with (String d (stake (S o) r)).
+    change (stake (S o) (String d r)) with (String d (stake o r)).
+    cbn [count_lf]. rewrite (IH o c H). lia.
+Qed.
+
+(* `to_line_range` is exact on a range that ends behind a line feed, or on one line *)
+Theorem line_range_exact v t s e :
+  (v_crlf v = true \/ no_cr t = true) -> s <= e -> e <= String.length t ->
+  (nth_byte t (e - 1) = Some LF \/ fst (lsp_pos_walk t s) = fst (lsp_pos_walk t e)) ->
+  to_line_range (line_starts v t) s e = spec_lines t s e.
+Proof.
+  intros Hc Hs He Hx. unfold to_line_range, spec_lines.
+  rewrite !(fst_locate v t) by (assumption || lia). rewrite !fst_lsp_pos_walk in *.
+  destruct (Nat.ltb_spec s e) as [Hlt|Hge].
+  - pose proof (count_lf_mono t s (e - 1) ltac:(lia)) as M1.
+    pose proof (count_lf_mono t (e - 1) e ltac:(lia)) as M2.
+    destruct Hx as [Hx|Hx].
+    + pose proof (count_lf_step t (e - 1) LF Hx) as St.
+      replace (S (e - 1)) with e in St by lia. change (if is_lf LF then 1 else 0) with 1 in St.
+      destruct (Nat.eqb_spec (count_lf (stake s t)) (count_lf (stake e t))); [lia|].
+      f_equal. lia.
+    + rewrite Hx, Nat.eqb_refl. f_equal. f_equal. lia.
+  - assert (s = e) by lia. subst e. now rewrite Nat.eqb_refl.
+Qed.
+
+(* an offset at which the repaired `to_position` is exact (inline_position_utf16) *)
+Definition boundary_ok (t : string) (x : nat) : Prop :=
+  is_char_boundary t x = true /\
+  is_char_boundary t (x - String.length (after_last_lf (stake x t))) = true.
+(* an event whose byte range lies in the text, on character boundaries, and ends behind a line
+   feed or on the line it starts on *)
+Definition ev_exact (t : string) (e : ev) : Prop :=
+  match ev_range e with
+  | Some (s, e') =>
+      s <= e' /\ e' <= String.length t /\ boundary_ok t s /\ boundary_ok t e' /\
+      (nth_byte t (e' - 1) = Some LF \/ fst (lsp_pos_walk t s) = fst (lsp_pos_walk t e'))
+  | None => True
+  end.
+
+Lemma ev_exact_agree v t e :
+  v_utf16 v = true -> (v_crlf v = true \/ no_cr t = true) ->
+  ev_exact t e -> modes_agree (code_mode v t) (spec_mode t) e.
+Proof.
+  intros Hu Hc H. unfold modes_agree, ev_exact in *. destruct (ev_range e) as [[s e']|]; [|exact I].
+  destruct H as (Hs & He & [B1 B2] & [B3 B4] & Hx). cbn [code_mode spec_mode m_lines m_inline]. split.
+  - now apply line_range_exact.
+  - unfold to_inline_range, spec_span.
+    rewrite (inline_position_utf16 v t s Hu Hc ltac:(lia) B1 B2),
+            (inline_position_utf16 v t e' Hu Hc He B3 B4), !lsp_pos_walk_spec. reflexivity.
+Qed.
+
+(* The reader of the current tree (every flag of [repaired] that matters here: v_crlf or no CR,
+   v_utf16, v_tight) builds exactly the specification's document — every block with the lines
+   its source spans, every inline with its LSP span — on every event stream whose ranges lie in
+   the text on character boundaries and end behind a line feed or on their first line.  What
+   is excluded is exactly the open finding F-C13-last-line (C13_last_line_refuted). *)
+Theorem C13_reader_spec_exact v t evs :
+  v_tight v = true -> v_utf16 v = true -> (v_crlf v = true \/ no_cr t = true) ->
+  Forall (ev_exact t) evs ->
+  read_events (code_mode v t) evs = read_events (spec_mode t) evs.
+Proof.
+  intros Ht Hu Hc H. apply C13_reader_spec; [exact Ht|].
+  eapply Forall_impl; [|exact H]. intros e. now apply ev_exact_agree.
+Qed.
+
+(* non-vacuous: every event of the tight-item witness is of that kind *)
+Example ev_exact_tight : Forall (ev_exact w_tight_text) w_tight_events.
+Proof.
+  repeat (apply Forall_cons;
+    [unfold ev_exact, boundary_ok; cbn [ev_range]; try exact I;
+     repeat split; try (vm_compute; reflexivity); try (vm_compute; lia);
+     first [left; vm_compute; reflexivity | right; vm_compute; reflexivity]|]).
+  apply Forall_nil.
+Qed.
